@@ -108,6 +108,9 @@ func vHammerMergeError(E error) bool {
 //verif:case C12,C09 quick VerifStreamMerge 1..2 1 -1 0..1 0
 //verif:case C12,C09 thorough VerifStreamMerge 3 0 -1..0 -1 0
 //verif:case C12,C09 quick VerifStreamMergeBlocked 1..2
+//verif:case C12,C08 quick VerifStreamMergeExpired 1..2 1 0..2
+//verif:case C12,C08 thorough VerifStreamMergeExpired 2 2 0..3
+//verif:case C12,C08 thorough VerifStreamMergeExpired 3 1 0..2
 
 // vBlockSrc: an input whose Next blocks until its context is cancelled.
 type vBlockSrc struct {
@@ -230,4 +233,58 @@ func VerifStreamMergeBlocked(k int) {
 		vAssert(bs[i].closes == 1, "C09:smerge/input-closed-exactly-once")
 	}
 	vCover("stream-merge-blocked")
+}
+
+// VerifStreamMergeExpired: a consumer that polls with per-call contexts. Call number badCall is
+// made with a context that has already expired: it returns a value (if one happens to be ready)
+// or that context's error - and costs nothing either way: no input failed, so reading on with a
+// live context yields every value of every input, per-input order preserved, and then End - never
+// an error that no input produced.
+// args: inputs k, items per input, index of the call with the expired context
+func VerifStreamMergeExpired(k int, n int, badCall int) {
+	srcs := make([]*vSrc, k)
+	ins := make([]Stream[int], k)
+	for i := range srcs {
+		items := make([]int, n)
+		for j := range items {
+			items[j] = i*10 + j
+		}
+		srcs[i] = &vSrc{items: items}
+		ins[i] = srcs[i]
+	}
+	out := Merge[int](ins...)
+	live := context.Background()
+	expired, cancel := context.WithCancel(context.Background())
+	cancel()
+	next := make([]int, k)
+	total, ended := 0, false
+	for call := 0; call < k*n+3 && !ended; call++ {
+		ctx := live
+		if call == badCall {
+			ctx = expired
+		}
+		v, err := out.Next(ctx)
+		switch {
+		case err == nil:
+			i, j := v/10, v%10
+			vAssert(i >= 0 && i < k, "C12:smerge/yields-only-input-items")
+			if i < 0 || i >= k {
+				return
+			}
+			vAssert(j == next[i], "C12:smerge/per-input-order-each-once")
+			next[i] = j + 1
+			total++
+		case err == End:
+			vAssert(total == k*n, "C12:smerge/end-only-after-everything-was-delivered")
+			ended = true
+		default:
+			vAssert(call == badCall && err == context.Canceled, "C08:smerge/expired-call-context-costs-nothing-no-error-that-no-input-produced")
+			if call != badCall {
+				return
+			}
+		}
+	}
+	vAssert(ended, "C12:smerge/finishes-when-all-inputs-are-exhausted")
+	out.Close()
+	vCover("smerge-expired")
 }
